@@ -60,6 +60,42 @@ fn native_spec() {
         if m.try_remove_one::<u16>("port").ok().flatten() != Some(80) || m.try_get_one::<u16>("port").ok().flatten().is_some() {
             println!("SPEC-REPLAY MISMATCH target={target} case=a correctly typed remove did not take the value out");
         }
+    } else if target == "phase_order" {
+        // C06: command line > environment > default, also on the error-ignoring recovery path
+        #[cfg(feature = "env")]
+        {
+            std::env::set_var("VERIF_SPEC_ENV_VAR", "from-env");
+            for ignore in [false, true] {
+                for bogus in [false, true] {
+                    for cli in [false, true] {
+                        let cmd = Command::new("p").ignore_errors(ignore).arg(
+                            Arg::new("o").long("o").env("VERIF_SPEC_ENV_VAR").default_value("from-default").action(ArgAction::Set),
+                        );
+                        let mut argv = vec!["p"];
+                        if cli {
+                            argv.extend(["--o", "from-cli"]);
+                        }
+                        if bogus {
+                            argv.push("--bogus");
+                        }
+                        let (want, want_src) = if cli { ("from-cli", crate::parser::ValueSource::CommandLine) } else { ("from-env", crate::parser::ValueSource::EnvVariable) };
+                        match cmd.try_get_matches_from(argv) {
+                            Ok(m) => {
+                                let got = m.get_one::<String>("o").cloned();
+                                if got.as_deref() != Some(want) || m.value_source("o") != Some(want_src) {
+                                    println!("SPEC-REPLAY MISMATCH target=phase_order case=ignore_errors={ignore} unknown_flag={bogus} on_cli={cli}: value {got:?} source {:?}, expected {want:?} from {want_src:?}", m.value_source("o"));
+                                }
+                            }
+                            Err(e) => {
+                                if !(bogus && !ignore) {
+                                    println!("SPEC-REPLAY MISMATCH target=phase_order case=ignore_errors={ignore} unknown_flag={bogus} on_cli={cli}: unexpected error {:?}", e.kind());
+                                }
+                            }
+                        }
+                    }
+                }
+            }
+        }
     } else if target == "line_wrapper_step" {
         // C20 through the crate's own wrap(): indented lines of 1..4 short words, widths 1..9.
         // A produced line wider than the width must hold a single word; non-space characters are kept.
